@@ -747,6 +747,15 @@ def disp7(ctx) -> List[Ob]:
             return False
 
         dashed = any(_dashed(c) for c in edge_calls)
+        # an edge is skipped only when its target is not drawn (not in the table of blocks): any other
+        # condition drops edges
+        from .ctrl import _guard_conditions as _gc
+
+        for c_ in edge_calls:
+            for t_, p_ in _gc(lp, c_):
+                known = (" in " in t_ and ("blocks" in t_ or "keys()" in t_)) or "isinstance(" in t_ or "type(" in t_
+                if not known:
+                    out.append(bad("DISP-7", re_.qualname, f"edge over {attr} drawn under: " + A.cond_key(t_, p_), ctx.where(re_, c_), f"an edge of {attr} is drawn only when '{('' if p_ else 'not ') + t_[:60]}': arcs for which that fails (e.g. a block that jumps to itself) are missing from the drawing"))
         seen[attr] = (lp, bool(edge_calls), dashed)
     for attr, want_dashed in (("jump_targets", False), ("backedges", True)):
         key = f"edges over {attr}"
@@ -1036,7 +1045,8 @@ def disp8(ctx) -> List[Ob]:
         for fv in [n for n in ast.walk(lp) if isinstance(n, ast.FormattedValue)]:
             if vname in A.names_in(fv.value):
                 key = "block attribute values in the YAML text"
-                quoted = fv.conversion == ord("r") or (isinstance(fv.value, ast.Call) and (A.dotted(fv.value.func) or "") in ("repr", "json.dumps"))
+                # repr keeps a str a str and an int key an int; json.dumps turns the int keys of a value table into strings
+                quoted = fv.conversion == ord("r") or (isinstance(fv.value, ast.Call) and (A.dotted(fv.value.func) or "") in ("repr",))
                 if quoted:
                     out.append(ok("DISP-8", ty.qualname, key, ctx.where(ty, fv), "values are written through repr: names that look like numbers stay strings"))
                 else:
@@ -1365,4 +1375,82 @@ def disp11(ctx) -> List[Ob]:
     else:
         out.append(bad("DISP-11", fog.qualname, key, ctx.where(fog), detail or "the outer blocks are not computed as 'all blocks minus the contents of regions'"))
     out.append(ok("DISP-11", mk.qualname, "walk exhausts its work-list", ctx.where(mk), "see TOTAL-6", nontrivial=False))
+    return out
+
+
+# ------------------------------------------------------------------ DISP-12
+
+
+def _is_copy(e: ast.AST) -> bool:
+    if isinstance(e, ast.Call):
+        if isinstance(e.func, ast.Attribute) and e.func.attr in ("copy", "deepcopy"):
+            return True
+        if isinstance(e.func, ast.Name) and e.func.id in ("dict", "deepcopy", "copy"):
+            return True
+    if isinstance(e, (ast.Dict, ast.DictComp)):
+        return True
+    return False
+
+
+@rule("DISP-12", 2, "the reader works on copies: an entry of the dictionary it was given is copied before fields are popped from it or added to it, so reading does not change (or depend on earlier reads of) the dictionary")
+def disp12(ctx) -> List[Ob]:
+    out: List[Ob] = []
+    io = _io(ctx)
+    readers = [io["from_dict"], io["make_scfg"], io["extract_block_info"]]
+    MUT = ("pop", "popitem", "update", "setdefault", "clear", "__setitem__", "__delitem__")
+
+    def input_aliases(fn) -> Dict[str, ast.AST]:
+        """locals that denote an entry of a parameter (x = param[..] / param[..][..]) without a copy"""
+        params = {p.arg for p in fn.params}
+        out_: Dict[str, ast.AST] = {}
+        for st in A.walk_no_nested(fn.node):
+            if isinstance(st, (ast.Assign, ast.AnnAssign)) and st.value is not None:
+                tg = st.targets[0] if isinstance(st, ast.Assign) else st.target
+                v = st.value
+                if isinstance(tg, ast.Name) and isinstance(v, ast.Subscript):
+                    root = v
+                    while isinstance(root, ast.Subscript):
+                        root = root.value
+                    if isinstance(root, ast.Name) and (root.id in params or root.id in out_):
+                        out_[tg.id] = st
+        return out_
+
+    # positions of a returned tuple that alias the input
+    returns_alias: Dict[str, Set[int]] = {}
+    for fn in readers:
+        al = input_aliases(fn)
+        for r in A.walk_no_nested(fn.node):
+            if isinstance(r, ast.Return) and isinstance(r.value, ast.Tuple):
+                for i, e in enumerate(r.value.elts):
+                    if isinstance(e, ast.Name) and e.id in al:
+                        returns_alias.setdefault(fn.name, set()).add(i)
+    n_ob = 0
+    for fn in readers:
+        al = dict(input_aliases(fn))
+        # results of a reader helper that hands an input entry back
+        for st in A.walk_no_nested(fn.node):
+            if isinstance(st, ast.Assign) and isinstance(st.targets[0], ast.Tuple) and isinstance(st.value, ast.Call):
+                cal = (A.dotted(st.value.func) or "").split(".")[-1]
+                for i in returns_alias.get(cal, ()):
+                    if i < len(st.targets[0].elts) and isinstance(st.targets[0].elts[i], ast.Name):
+                        al[st.targets[0].elts[i].id] = st
+        for name, src in sorted(al.items()):
+            muts = []
+            for n in A.walk_no_nested(fn.node):
+                if isinstance(n, ast.Call) and isinstance(n.func, ast.Attribute) and isinstance(n.func.value, ast.Name) and n.func.value.id == name and n.func.attr in MUT:
+                    muts.append(n)
+                elif isinstance(n, (ast.Assign, ast.AugAssign, ast.Delete)):
+                    for t in (n.targets if isinstance(n, (ast.Assign, ast.Delete)) else [n.target]):
+                        if isinstance(t, ast.Subscript) and isinstance(t.value, ast.Name) and t.value.id == name:
+                            muts.append(n)
+            key = f"{fn.name}: entry of the input bound to a local: " + A.alpha_key(src)[:60]
+            n_ob += 1
+            if muts:
+                out.append(bad("DISP-12", fn.qualname, key, ctx.where(fn, muts[0]), f"'{name}' is an entry of the dictionary that was passed in (line {A.lineno(src)}, no copy) and is modified here ('{A.unparse(muts[0])[:50]}'): reading a graph changes the dictionary it is read from - a second read, or writing the graph and comparing, sees another dictionary"))
+            else:
+                out.append(ok("DISP-12", fn.qualname, key, ctx.where(fn, src), "read only"))
+    # the copy itself
+    ebi = io["extract_block_info"]
+    copies = [st for st in A.walk_no_nested(ebi.node) if isinstance(st, (ast.Assign, ast.AnnAssign)) and st.value is not None and _is_copy(st.value)]
+    out.append(ok("DISP-12", ebi.qualname, "entries are copied before use", ctx.where(ebi, copies[0]) if copies else ctx.where(ebi), f"{len(copies)} copying definition(s); {n_ob} uncopied alias(es) examined", nontrivial=False))
     return out
